@@ -4,7 +4,7 @@ PROP = dict(
               "process under strace; every prefix of its file-system operations is replayed into a directory and a fresh node is "
               "started on it; oracle = sequential model of the acknowledged writes",
     level_text="Generated write histories (Set/Clear with and without timestamps, int Set, Import/ImportValue/ImportRoaring with and "
-               "without clear, Store, ClearRow; set, mutex, bool, time, int and keyed fields; column and row keys incl. entries larger "
+               "without clear, Store, ClearRow; set, mutex, bool, time (with and without standard view), int and keyed fields; column and row keys incl. entries larger "
                "than the 4 KiB translate buffer; low snapshot thresholds so that background snapshots interleave) are executed by a real "
                "in-process node in a child process under strace. The trace (every write/rename/truncate/unlink/create with its payload, "
                "and the position of each ACK) is replayed operation by operation with an inode-accurate replayer that is self-checked "
@@ -24,8 +24,8 @@ PROP = dict(
          "inside-multi-append (k between two op-log appends of one write to one fragment).",
     assumptions=["crash points are taken between completed syscalls (process-kill model), per the property's quantifier",
                  "histories are sequential (one client); concurrency is C29's subject",
-                 "roaring imports only on unkeyed indexes (they address columns by id); no noStandardView time fields (D22), no duplicate "
-                 "columns inside one mutex import batch (D15), first write gives the int field a non-zero bit depth (D9): defects owned by other groups",
+                 "roaring imports only on unkeyed indexes (they address columns by id); the first (fixed) write gives the int field a "
+                 "non-zero bit depth before the crash points start (a stored depth of 0 is re-interpreted on restart: D9, owned by another group)",
                  "fragment.MaxOpN is lowered by the child after each write (generated: 2/5/12/default) to make snapshots frequent"],
     tags=["gc"],
     units=[
